@@ -1566,8 +1566,12 @@ func (f *File) WriteTo(w io.Writer) (written int64, err error) {
 			return written, errors.New("sftp.File.WriteTo: unexpectedly closed channel")
 		}
 
-		// Because writes are serialized, this will always be the last successfully read byte.
-		f.offset = packet.off + int64(len(packet.b))
+		if len(packet.b) > 0 {
+			// Because writes are serialized, this will always be the last successfully read byte.
+			// (A packet without data, i.e. the EOF or error that ends the transfer,
+			// belongs to a chunk beyond the last byte read and must not move the offset.)
+			f.offset = packet.off + int64(len(packet.b))
+		}
 
 		if len(packet.b) > 0 {
 			n, err := w.Write(packet.b)
